@@ -393,11 +393,13 @@ class TcpClient(TcpConnection):
             self.sock.connect_ex((self.ip_address, self.port))
             tcp_client.debug(f"[Socket-{self.sock_id}] Connecting to the "\
                              f"Remote Peer")
-            self.is_connected = True
-
             self.selector.register(self.sock, selectors.EVENT_READ | selectors.EVENT_WRITE)
             tcp_client.debug(f"[Socket-{self.sock_id}] Registering Socket "\
                              f"Selector address: {self.selector.get_map()}")
+
+            #: Only now: the state machine thread starts using the connection
+            #: (and its selector registration) as soon as it sees this flag.
+            self.is_connected = True
 
         except Exception as e:
             tcp_client.exception(f"client_errors: {e.args}")
